@@ -19,7 +19,7 @@ def _load(n):
     m = importlib.util.module_from_spec(spec); spec.loader.exec_module(m); return m
 # H1/H3: accepted by sf_format_check => the container opens for writing with all four writers and re-opens as the same
 # container and encoding (asserted inside the C04 round-trip harnesses); one configuration per container here
-HARNESSES += [h for h in _load("C04").rt_harnesses() if ".ch1.n1" in h.name and h.probe_for is None and (".sr" not in h.name or ".sr44100" in h.name)]
+HARNESSES += [h for h in _load("C04").rt_harnesses() if ".ch1.n1" in h.name and h.probe_for is None and (".sr" not in h.name or ".sr44100" in h.name or ".sr8000" in h.name)]
 
 # write open with any sample rate (0 and negative included): refused or accepted, never a fault
 _ALLU = _load("allunits").ALL_UNITS if "_load" in globals() else None
